@@ -890,3 +890,39 @@ def check_display(facts, rep):
         rep.ok('E4.O5-display-per-element', 'BitSeq Debug|delegates to Display', 'fmt(self, f)')
     else:
         rep.indet('E4.O5: Debug of BitSeq is %s' % sorted(gr))
+
+
+BITS = {'u8': 8, 'i8': 8, 'u16': 16, 'i16': 16, 'u32': 32, 'i32': 32, 'u64': 64, 'i64': 64, 'usize': 64, 'isize': 64, 'u128': 128, 'i128': 128}
+
+
+def check_no_narrowing(facts, rep, module=MODULE):
+    """O6 (C17): the packed word is never truncated. Every integer cast in the module whose source is a 64-bit value
+    (`val` and everything computed from it is u64) goes to a type of at least 64 bits; a cast `val as u32` drops the bits
+    of positions 32..63, which the invariant width(val) <= len <= 64 allows to be set (weight, and with it the homological
+    degree of every Khovanov generator, would be wrong from 33 crossings on). usize is taken as 64 bits (the only
+    supported targets; a 32-bit target would have to be excluded in Cargo metadata)."""
+    n = 0
+    bad = []
+    for k, b in sorted(facts.bodies.items()):
+        if not (k.startswith(module) or ('<' + module.split('::', 1)[1] in k and k.startswith(module.split('::')[0] + '::<'))):
+            continue
+        for i, blk in enumerate(b.blocks):
+            for s in blk['stmts']:
+                rv = s.get('rv') or {}
+                if rv.get('k') != 'cast' or rv.get('kind') != 'IntToInt':
+                    continue
+                src, dst = rv.get('from_ty'), rv.get('ty')
+                if src not in BITS or dst not in BITS:
+                    continue
+                n += 1
+                if BITS[src] >= 64 and BITS[dst] < 64 and src in ('u64', 'usize', 'i64', 'isize', 'u128', 'i128'):
+                    bad.append((k, src, dst, s.get('line')))
+    inst = 'bitseq|no narrowing cast of a 64-bit value'
+    if bad:
+        k, src, dst, line = bad[0]
+        rep.violation('E4.O6-no-narrowing-cast', '%s|%s as %s' % (k, src, dst),
+                      '%s casts a %s to %s: the bits of positions %d..63 of the packed word are dropped although len may be up to 64' % (k, src, dst, BITS[dst]),
+                      where='yui/src/misc/bitseq.rs:%s' % line)
+    else:
+        rep.ok('E4.O6-no-narrowing-cast', inst, '%d integer casts, none narrows a 64-bit value' % n)
+    rep.floor('E4.O6 integer casts in the bit-sequence module', n, 3)
